@@ -46,9 +46,23 @@ static errcode_t xattr_update_entry(ext2_filsys fs, struct ext2_xattr *x, const 
 	ENSURES(RET != 0 || (x->name != 0 && x->value != 0 && x->value != OLD(x->value)))
 	ENSURES(RET != 0 || OLD(x->name) == 0 || (x->name == OLD(x->name) && x->short_name == OLD(x->short_name)))
 	ENSURES(RET != 0 || OLD(x->name) != 0 || x->short_name == x->name + (short_name - name))
-	/* the copies, at the ghost byte index */
+#ifdef XAT_LIGHT_UPDATE_ENTRY
+	/* light version for units that only need the bookkeeping: a SUBSET of the clauses proved in update_entry.c
+	 * (no statement about the copied bytes, the release of the old value buffer is not modelled) */
+	ASSIGNS(*x, verif_g2, xat_mon);
+#else
+	/* the copies are new heap objects ... */
+	ENSURES(RET != 0 || FRESH(x->value, value_len))
+	ENSURES(RET != 0 || OLD(x->name) != 0 || FRESH(x->name, XSPEC_STRLEN(name) + 1))
+	/* ... holding the caller's bytes (at the ghost byte index) */
 	ENSURES(RET != 0 || !(xat_bk < value_len) || ((const unsigned char *)x->value)[xat_bk] == ((const unsigned char *)value)[xat_bk])
 	ENSURES(RET != 0 || OLD(x->name) != 0 || !(xat_bk <= XSPEC_STRLEN(name)) ||
 		((const unsigned char *)x->name)[xat_bk] == ((const unsigned char *)name)[xat_bk])
-	ASSIGNS(*x, verif_g2)
+#ifdef XAT_UPDATE_ENTRY_NO_FREES
+	/* for REPLACING units: the release of the old value buffer is not modelled (DFCC would evaluate the frees target after havocking *x) */
+	ASSIGNS(*x, verif_g2, xat_mon);
+#else
+	ASSIGNS(*x, verif_g2, xat_mon)
 	XAT_FREES(x->value);
+#endif
+#endif
